@@ -1,107 +1,4 @@
-// ---- spec/lemmas.rs: lemmas over the truth tables (C06, C17) used by the solver proofs
-
-pub open spec fn and2(a: SolverResult, b: SolverResult) -> SolverResult {
-    if a == SolverResult::True { b } else { a }
-}
-
-pub open spec fn or2(a: SolverResult, b: SolverResult) -> SolverResult {
-    if a == SolverResult::True || b == SolverResult::True { SolverResult::True }
-    else if a == SolverResult::Missing && b == SolverResult::Missing { SolverResult::Missing }
-    else { SolverResult::False }
-}
-
-pub proof fn lemma_and3_skip(s: Seq<SolverResult>, k: int)
-    requires 0 <= k <= s.len(), forall|j: int| 0 <= j < k ==> s[j] == SolverResult::True,
-    ensures and3(s) == and3(s.skip(k)),
-    decreases k,
-{
-    if k > 0 {
-        lemma_and3_skip(s.skip(1), k - 1);
-        assert(s.skip(1).skip(k - 1) =~= s.skip(k));
-    } else {
-        assert(s.skip(0) =~= s);
-    }
-}
-
-// and3 is "the first non-true element, else true"
-pub proof fn lemma_and3_first(s: Seq<SolverResult>, k: int)
-    requires 0 <= k < s.len(), forall|j: int| 0 <= j < k ==> s[j] == SolverResult::True, s[k] != SolverResult::True,
-    ensures and3(s) == s[k],
-{
-    lemma_and3_skip(s, k);
-}
-
-pub proof fn lemma_and3_all_true(s: Seq<SolverResult>)
-    requires forall|j: int| 0 <= j < s.len() ==> s[j] == SolverResult::True,
-    ensures and3(s) == SolverResult::True,
-{
-    lemma_and3_skip(s, s.len() as int);
-}
-
-pub proof fn lemma_and3_true_iff(s: Seq<SolverResult>)
-    ensures (and3(s) == SolverResult::True) <==> (forall|j: int| 0 <= j < s.len() ==> s[j] == SolverResult::True),
-    decreases s.len(),
-{
-    if s.len() > 0 {
-        lemma_and3_true_iff(s.skip(1));
-        if s[0] == SolverResult::True {
-            if and3(s) == SolverResult::True {
-                assert forall|j: int| 0 <= j < s.len() implies s[j] == SolverResult::True by {
-                    if j > 0 { assert(s.skip(1)[j - 1] == s[j]); }
-                }
-            }
-            if forall|j: int| 0 <= j < s.len() ==> s[j] == SolverResult::True {
-                assert forall|j: int| 0 <= j < s.skip(1).len() implies s.skip(1)[j] == SolverResult::True by {
-                    assert(s.skip(1)[j] == s[j + 1]);
-                }
-            }
-        }
-    }
-}
-
-pub proof fn lemma_and2(a: SolverResult, b: SolverResult)
-    ensures and3(seq![a, b]) == and2(a, b),
-{
-    let s = seq![a, b];
-    reveal_with_fuel(and3, 3);
-    assert(s.skip(1) =~= seq![b]);
-    assert(seq![b].skip(1) =~= Seq::<SolverResult>::empty());
-}
-
-pub proof fn lemma_or2(a: SolverResult, b: SolverResult)
-    ensures or3(seq![a, b]) == or2(a, b),
-{
-    let s = seq![a, b];
-    assert(s[0] == a && s[1] == b);
-}
-
-pub proof fn lemma_count_true_step(s: Seq<SolverResult>, k: int)
-    requires 0 <= k < s.len(),
-    ensures count_true(s.take(k + 1)) == count_true(s.take(k)) + (if s[k] == SolverResult::True { 1nat } else { 0nat }),
-{
-    assert(s.take(k + 1).drop_last() =~= s.take(k));
-    assert(s.take(k + 1).last() == s[k]);
-}
-
-pub proof fn lemma_count_true_mono(s: Seq<SolverResult>, k: int)
-    requires 0 <= k <= s.len(),
-    ensures count_true(s.take(k)) <= count_true(s),
-    decreases s.len() - k,
-{
-    if k < s.len() {
-        lemma_count_true_step(s, k);
-        lemma_count_true_mono(s, k + 1);
-    } else {
-        assert(s.take(k) =~= s);
-    }
-}
-
-pub proof fn lemma_count_true_bound(s: Seq<SolverResult>)
-    ensures count_true(s) <= s.len(),
-    decreases s.len(),
-{
-    if s.len() > 0 { lemma_count_true_bound(s.drop_last()); }
-}
+// ---- spec/lemmas.rs: solver-side structural lemmas
 
 pub proof fn lemma_ids_wf(ids: Ids, k: String)
     requires ids_wf(ids), ids.contains_key(k),
